@@ -23,7 +23,8 @@ async def realise(ctx, sq, rec_all, n, scen, rnd, big):
     body = peers.body_bytes(version, total)
     status = par['status']
     reason = {200: 'OK', 404: 'Not Found', 500: 'Internal Server Error', 204: 'No Content', 304: 'Not Modified'}[status]
-    seg = rnd.choice(['one', 'perbyte-head', 'units', 'random'])
+    seg = rnd.choice(['one', 'perbyte-head', 'units', 'random', 'firstk', 'firstk'])
+    firstk = rnd.randint(1, 16)
     abort_at = par['abortAt']
     produced = {'len': 0, 'fin': 'none', 'attempts': 0}
     done = asyncio.Event()
@@ -51,7 +52,9 @@ async def realise(ctx, sq, rec_all, n, scen, rnd, big):
             hs.append(('Connection', 'close'))
         head = peers.response_head(status, reason, hs)
         if seg == 'perbyte-head':
-            await oc.send_segments(head, range(1, len(head)))
+            await oc.send_segments(head, range(1, len(head)), delay=0.0005)
+        elif seg == 'firstk':
+            await oc.send_segments(head, [firstk], delay=0.02)
         else:
             await oc.send(head)
         pos = 0
@@ -99,14 +102,14 @@ async def realise(ctx, sq, rec_all, n, scen, rnd, big):
             pass
     finally:
         await o.stop()
-    squid_err = r.head is None or not r.head.has('X-Verif-Origin')
+    squid_err = r.head is None or r.head.has('X-Squid-Error')
     intact, bad = peers.project_body(r.body, version)
     ev = [{'e': 'Produce', 'status': status, 'framing': par['oframing'] if status not in (204, 304) else 'none',
            'full': total, 'len': produced['len'], 'fin': produced['fin'] if produced['fin'] != 'none' else 'aborted'},
           {'e': 'Consume', 'status': r.status if r.status is not None else 0, 'framing': r.framing or 'none',
            'declared': r.declared if r.declared is not None else -1, 'len': len(r.body), 'intact': bool(intact),
-           'complete': bool(r.complete), 'squidError': bool(squid_err)}]
-    return {'ev': ev, 'scen': par, 'sizes': usizes, 'seg': seg, 'pred_cframing': scen['cframing'], 'first_bad': bad, 'n': n}
+           'complete': bool(r.complete), 'squidError': bool(squid_err), 'cver': par['cver']}]
+    return {'ev': ev, 'scen': par, 'sizes': usizes, 'seg': seg if seg != 'firstk' else 'firstk%d' % firstk, 'pred_cframing': scen['cframing'], 'first_bad': bad, 'n': n}
 
 
 async def main_async(ctx, sq, scens, rnd):
@@ -169,5 +172,5 @@ def run(ctx):
                        'cacheable); each realised once over sockets against the rebuilt squid with unit sizes from the buffer-boundary lattice and a '
                        'seeded write segmentation; non-trivial = distinct (class, sizes, segmentation).')
     ctx.assumptions += ['body bytes are projected to (version, length, intact) by the driver (e2e/peers.py project_body); TLC decides on the projection',
-                        'a close-delimited message to an HTTP/1.0 client has no in-band end marker; the abort-visibility clause is not applied to it',
+                        'a close-delimited message to an HTTP/1.0 client has no in-band end marker; the abort-visibility clause is not applied to it (it is applied to HTTP/1.1 clients)',
                         'origin write timing is a scheduling choice of the single-process driver (seeded), not enumerated']
